@@ -14,13 +14,57 @@ TRUST = ("Trusted base: the checker's own CFG construction, callee resolution (a
 CLAIMS = {
     "C02": dict(
         text="Full structural decision: validate-before-mutate (dominance under force=False), refusal edge, "
-             "raise-after-write, pairing table request/pending list/package type, pending flag, grouping by "
-             "market version, chunking by order_limit, clear-on-exit, single dispatch, force only skips the "
-             "controls, who-may-send, VIOLATION filter. Holds for every input and history because no rule "
-             "looks at a value. Known finding F03 (a refused cancel/update/replace marks a live order "
-             "VIOLATION) is reported on every run.",
-        technique="CFG dominance + inter-procedural effect summaries + who-may-call over the resolved call graph + table agreement",
+             "raise-after-write, a refusal marks only a new order (typestate), pairing table request/pending "
+             "list/package type, pending flag, grouping by market version, chunking by order_limit, "
+             "clear-on-exit, single dispatch, force only skips the controls, who-may-send, VIOLATION filter. "
+             "Holds for every input and history because no rule looks at a value.",
+        technique="CFG dominance + inter-procedural effect summaries + who-may-call over the resolved call graph + table agreement + typestate",
         design="§3 C02"),
+    "C03": dict(
+        text="Full structural decision: request guards of the five order request methods (guard set, raise "
+             "before write, sibling agreement) and an inter-procedural typestate analysis of every status "
+             "setter call in the package against the documented lifecycle, with handler entry states closed "
+             "under the interference of the asynchronous actors; tables LIVE/COMPLETE, setter table, "
+             "who-may-write status. Not decided: matched size of live orders after completion (exchange data).",
+        technique="typestate dataflow (context-sensitive, interference closure) + guard-set dominance + who-may-write",
+        design="§3 C03, §2.5"),
+    "C10": dict(
+        text="Full structural decision: status funnel ordering, Trade.complete as a conjunction (finite truth "
+             "table over two orders), who-may-call of RunnerContext.place/reset and complete_trade with key "
+             "agreement, list discipline, every handler setter inside the trade's pending scope, "
+             "validate_order decided over the finite abstract domain of count/limit orderings, membership and "
+             "cool-downs. Not decided: wall-clock arithmetic of the cool-downs.",
+        technique="who-may-call/who-may-write + with-scope containment + finite-domain truth tables evaluated on the CFG",
+        design="§3 C10"),
+    "C12": dict(
+        text="Full structural decision for the Betfair and simulated executions: exhaustive report-status "
+             "dispatch with must-transition on every branch, cancel reports matched by bet id and unreported "
+             "orders reset, positional alignment of orders with instructions/reports (filters vs typestate "
+             "entry states), bounded monotone retry with reset on exhaustion, transaction count table "
+             "identical in both executions. Not decided: what the real exchange did with a timed-out "
+             "request; Betdaq (outside the property).",
+        technique="exhaustive dispatch over a finite status domain on the CFG + must-pass-through + table agreement between siblings",
+        design="§3 C12"),
+    "C13": dict(
+        text="Partial: the containment sentence is decided completely (every callback dispatch through a "
+             "wrapper, wrapper shapes, dispatch loop shapes and order); of the isolation sentence only its "
+             "mechanism (the per-strategy copy of the traded ladder). Not decided: run(A) = run(A+B).",
+        technique="who-may-call + try/except shape analysis + loop-shape and dominance + alias/loop-variance of the ladder copy",
+        design="§3 C13"),
+    "C15": dict(
+        text="Full structural decision: exhaustive population of all nine views on insert with writer/reader "
+             "key agreement, who-may-write of the containers, absence test before every insert, completion "
+             "proved (typestate) at every removal from the live list, sibling accessor filters identical, bet "
+             "id assigned before the insert for replacement/adopted orders.",
+        technique="who-may-write + key agreement + dominance + typestate probes + sibling comparison",
+        design="§3 C15"),
+    "C18": dict(
+        text="Full structural decision: lock discipline for every read-modify-write, pairing of total and "
+             "hourly counter per branch, monotone totals, reset only in _set_next_hour, hour check precedes "
+             "the limit test, `safe` decided over the finite abstract domain, per-client instance, count table "
+             "of the handlers. Not decided: hour-boundary date arithmetic.",
+        technique="lock-scope containment + who-may-write + dominance + finite-domain truth table + table agreement",
+        design="§3 C18"),
 }
 
 NOT_YET = "check not built yet in this session (work in progress; see DESIGN.md §3 for the planned rules)"
